@@ -20,7 +20,7 @@ PID = "C03"
 LEVEL = "translation_validation"
 LEAN = ["SaVerif.Props.C03"]
 META = {
-    "text": "Differential validation on the real code: random chains and branching trees (length <=12 quick, <=40 thorough) of generative calls (where/having/group_by/order_by/limit/offset/distinct/add_columns/with_only_columns/join/outerjoin/select_from/correlate/prefix_with/suffix_with/with_for_update/with_hint/execution_options/options/filter_by/params/union/cte/subquery, values/returning/inline/from_select/on_conflict/ordered_values) over Core select/compound/insert/update/delete and ORM select; every statement is compiled at birth for six dialects and again after the whole tree exists, after copy.copy, _clone, cloned_traverse, pickle and repeated compilation; SQL strings, parameters and cache keys must be unchanged. Lean: in the shallow-copy model of Generative._generate any chain of rebinding generative calls leaves every ancestor observably unchanged (generative_preserves_ancestors, induction over the chain; mutate_counterexample), plus regenerated-table obligations that no @_generative method mutates an attribute of self in place and that _generate copies __dict__.",
+    "text": "Differential validation on the real code: random chains and branching trees (length <=12 quick, <=40 thorough) of generative calls (where/having/group_by/order_by/limit/offset/distinct/add_columns/with_only_columns/join/outerjoin/select_from/correlate/prefix_with/suffix_with/with_for_update/with_hint/execution_options/options/filter_by/params/union/cte/subquery, values/returning/inline/from_select/on_conflict/ordered_values) over Core select / union / intersect / except / nested compound (set_label_style, order_by by label name, limit, subquery observer) / insert / update / delete, ORM select and the legacy session.query() API (add_entity, add_columns, with_entities, join, filter, ...); every statement is compiled at birth for six dialects and again after the whole tree exists, after copy.copy, _clone, cloned_traverse, pickle and repeated compilation; SQL strings, parameters and cache keys must be unchanged. Lean: in the shallow-copy model of Generative._generate any chain of rebinding generative calls leaves every ancestor observably unchanged (generative_preserves_ancestors, induction over the chain; mutate_counterexample), plus regenerated-table obligations that no method which is @_generative or rebinds self = self._generate() (every class of sql/*.py, orm/*.py, dialect dml) performs an UNGUARDED in-place operation (mutator call, item/slice store, +=) on an attribute of self — guarded = the method first assigns a fresh value to that attribute — and that _generate copies __dict__.",
     "note": "Level translation_validation: the theorem is about the copy discipline, not about each method; the per-method tie is the syntactic table (ast: calls of append/extend/add/update/… and subscript stores on self.<attr> inside @_generative bodies, baseline reviewed on the unchanged tree) and the differential. Pickle round trip only for statements without lambdas/ORM options.",
     "technique": "differential testing of ancestor stability over random generative trees on six dialects + regenerated no-in-place-mutation table decided in Lean + shallow-copy model theorem",
     "design_ref": "DESIGN.md §3 C03",
@@ -34,40 +34,91 @@ FILES = ["sql/selectable.py", "sql/dml.py", "sql/elements.py", "sql/base.py", "s
 
 
 # --------------------------------------------------------------------------- translator
+def _scan_files():
+    from harness import vlib
+
+    root = os.path.join(vlib.REPO, "lib", "sqlalchemy")
+    out = []
+    for sub in ("sql", "orm"):
+        d = os.path.join(root, sub)
+        for fn in sorted(os.listdir(d)):
+            if fn.endswith(".py"):
+                out.append(sub + "/" + fn)
+    for rel in FILES:
+        if rel not in out and os.path.exists(os.path.join(root, rel)):
+            out.append(rel)
+    return out
+
+
 def scan_generative():
+    """every method that is decorated @_generative OR rebinds `self = self._generate()`:
+    in-place operations on an attribute of self (mutator call, subscript store/delete,
+    augmented assignment) are recorded; an operation is `guarded` when the same method
+    assigns a fresh value to that attribute on an earlier line (defensive copy), else
+    `UNGUARDED`.  Only UNGUARDED rows and += rows are compared with the baseline."""
     from harness import vlib
 
     rows, n_methods, copies = [], 0, False
-    for rel in FILES:
+    for rel in _scan_files():
         fn = os.path.join(vlib.REPO, "lib", "sqlalchemy", rel)
-        if not os.path.exists(fn):
+        try:
+            tree = ast.parse(open(fn).read())
+        except Exception:
             continue
-        tree = ast.parse(open(fn).read())
         for cls in [n for n in ast.walk(tree) if isinstance(n, ast.ClassDef)]:
             for f in cls.body:
-                if not isinstance(f, ast.FunctionDef):
+                if not isinstance(f, ast.FunctionDef) or not f.args.args:
                     continue
                 if rel == "sql/base.py" and cls.name == "Generative" and f.name == "_generate":
                     src = ast.unparse(f)
                     copies = "__dict__.copy()" in src and "cls.__new__(cls)" in src
+                selfname = f.args.args[0].arg
                 decos = [ast.unparse(d) for d in f.decorator_list]
-                if not any(d.split("(")[0].endswith("_generative") for d in decos):
+                is_gen = any(d.split("(")[0].endswith("_generative") for d in decos)
+                if not is_gen:
+                    for sub in ast.walk(f):
+                        if (
+                            isinstance(sub, ast.Assign)
+                            and len(sub.targets) == 1
+                            and isinstance(sub.targets[0], ast.Name)
+                            and sub.targets[0].id == selfname
+                            and isinstance(sub.value, ast.Call)
+                            and isinstance(sub.value.func, ast.Attribute)
+                            and sub.value.func.attr == "_generate"
+                        ):
+                            is_gen = True
+                            break
+                if not is_gen:
                     continue
                 n_methods += 1
-                selfname = f.args.args[0].arg if f.args.args else "self"
 
                 def is_self_attr(node):
                     return isinstance(node, ast.Attribute) and isinstance(node.value, ast.Name) and node.value.id == selfname
 
+                assigned = {}  # attr -> first line where self.attr = <something> (plain assignment)
+                for sub in ast.walk(f):
+                    if isinstance(sub, ast.Assign):
+                        for tg in sub.targets:
+                            for el in (tg.elts if isinstance(tg, ast.Tuple) else [tg]):
+                                if is_self_attr(el):
+                                    assigned[el.attr] = min(assigned.get(el.attr, 10 ** 9), sub.lineno)
+
+                def guard(attr, line):
+                    return "guarded" if assigned.get(attr, 10 ** 9) < line else "UNGUARDED"
+
+                where = "%s:%s.%s" % (rel, cls.name, f.name)
                 for sub in ast.walk(f):
                     if isinstance(sub, ast.Call) and isinstance(sub.func, ast.Attribute) and sub.func.attr in MUTATORS and is_self_attr(sub.func.value):
-                        rows.append("%s:%s.%s:%s.%s" % (rel, cls.name, f.name, sub.func.value.attr, sub.func.attr))
-                    if isinstance(sub, (ast.Assign, ast.AugAssign)):
-                        targets = sub.targets if isinstance(sub, ast.Assign) else [sub.target]
+                        rows.append("%s:%s.%s:%s" % (where, sub.func.value.attr, sub.func.attr, guard(sub.func.value.attr, sub.lineno)))
+                    if isinstance(sub, (ast.Assign, ast.AugAssign, ast.Delete)):
+                        targets = sub.targets if isinstance(sub, (ast.Assign, ast.Delete)) else [sub.target]
                         for tg in targets:
                             if isinstance(tg, ast.Subscript) and is_self_attr(tg.value):
-                                rows.append("%s:%s.%s:%s[]" % (rel, cls.name, f.name, tg.value.attr))
-    return sorted(set(rows)), n_methods, copies
+                                rows.append("%s:%s[]:%s" % (where, tg.value.attr, guard(tg.value.attr, sub.lineno)))
+                    if isinstance(sub, ast.AugAssign) and is_self_attr(sub.target):
+                        rows.append("%s:%s+=:%s" % (where, sub.target.attr, guard(sub.target.attr, sub.lineno)))
+    rows = sorted(set(r for r in rows if not r.endswith(":guarded")))
+    return rows, n_methods, copies
 
 
 def gen(ctx):
@@ -102,6 +153,9 @@ class Env:
         self.T, self.U = self.fx.mapped()
         self.dialects = {n: lf.get_dialect(n) for n in lf.DIALECTS}
         self.dialects["default"] = sa.engine.default.DefaultDialect()
+        from sqlalchemy.orm import Session
+
+        self.session = Session()
 
 
 SELECT_OPS = ["where", "where_in", "where_bind", "having", "group_by", "order_by", "order_desc", "limit", "offset", "distinct", "add_columns", "with_only_columns", "join", "outerjoin", "select_from", "correlate", "prefix_with", "suffix_with", "with_for_update", "with_hint", "execution_options", "filter_by", "params", "label_col", "where_exists", "reduce_columns", "where_text", "order_by_none", "group_by_none", "with_statement_hint", "fetch", "slice", "where_or"]
@@ -109,6 +163,8 @@ COMPOUND_OPS = ["order_by", "limit", "offset", "execution_options", "order_by_no
 INSERT_OPS = ["values", "values_more", "returning", "prefix_with", "inline", "execution_options", "return_defaults"]
 UPDATE_OPS = ["where", "values", "values_more", "returning", "prefix_with", "execution_options", "where_in", "with_hint", "ordered"]
 DELETE_OPS = ["where", "returning", "prefix_with", "execution_options", "where_in", "with_hint"]
+QUERY_OPS = ["filter", "filter_by", "order_by", "limit", "offset", "distinct", "add_entity", "add_columns", "with_entities", "join_rel", "outerjoin_rel", "group_by", "having", "options_selectin", "add_entity_alias", "where", "execution_options", "select_from", "enable_assertions", "params", "filter_bind", "slice", "reset_order"]
+COMPOUND_OPS2 = ["order_by", "order_by_str", "limit", "offset", "execution_options", "order_by_none", "label_none", "label_tablename", "label_disambiguate", "fetch", "slice", "order_desc_str"]
 ORM_OPS = ["where", "where_in", "order_by", "limit", "offset", "distinct", "join_rel", "options_selectin", "options_joined", "options_load_only", "options_criteria", "filter_by", "execution_options", "group_by", "with_only_columns_orm", "where_bind", "params"]
 
 
@@ -120,6 +176,18 @@ def base_stmt(env, kind):
         return sa.select(t.c.id, u.c.v).join_from(t, u, u.c.tid == t.c.id)
     if kind == "compound":
         return sa.union_all(sa.select(t.c.id, t.c.x).where(t.c.x > 5), sa.select(u.c.id, u.c.v))
+    if kind == "compound_union":
+        return sa.union(sa.select(t.c.id, t.c.x).where(t.c.x > 5), sa.select(u.c.id, u.c.v), sa.select(t.c.y, t.c.id))
+    if kind == "compound_intersect":
+        return sa.intersect(sa.select(t.c.id, t.c.x), sa.select(u.c.tid, u.c.v))
+    if kind == "compound_except":
+        return sa.except_(sa.select(t.c.id, t.c.x), sa.select(u.c.tid, u.c.v).where(u.c.v > 7))
+    if kind == "compound_nested":
+        return sa.union_all(sa.select(t.c.id, t.c.x), sa.intersect(sa.select(u.c.id, u.c.v), sa.select(t.c.id, t.c.y)))
+    if kind == "query":
+        return env.session.query(env.T)
+    if kind == "query_cols":
+        return env.session.query(env.T.id, env.T.x)
     if kind == "insert":
         return sa.insert(t)
     if kind == "update":
@@ -134,6 +202,10 @@ def base_stmt(env, kind):
 
 
 def ops_for(kind):
+    if kind.startswith("compound"):
+        return COMPOUND_OPS2
+    if kind.startswith("query"):
+        return QUERY_OPS
     return {"select": SELECT_OPS, "select_join": SELECT_OPS, "compound": COMPOUND_OPS, "insert": INSERT_OPS, "update": UPDATE_OPS, "delete": DELETE_OPS, "orm": ORM_OPS, "orm_cols": ORM_OPS}[kind]
 
 
@@ -144,6 +216,66 @@ def apply_op(env, kind, st, op, a):
 
     T, U = env.T, env.U
     col = [t.c.x, t.c.y, t.c.id, t.c.s][a % 4]
+    if kind.startswith("compound"):
+        if op == "order_by_str":
+            return st.order_by("x" if a % 2 else "id")
+        if op == "order_desc_str":
+            return st.order_by(sa.desc("x"))
+        if op == "label_none":
+            return st.set_label_style(sa.LABEL_STYLE_NONE)
+        if op == "label_tablename":
+            return st.set_label_style(sa.LABEL_STYLE_TABLENAME_PLUS_COL)
+        if op == "label_disambiguate":
+            return st.set_label_style(sa.LABEL_STYLE_DISAMBIGUATE_ONLY)
+        if op == "order_by":
+            return st.order_by(sa.text(str(1 + a % 2)))
+    if kind.startswith("query"):
+        ecol = [T.x, T.y, T.id][a % 3]
+        if op in ("filter", "where"):
+            return st.filter(ecol > a) if op == "filter" else st.where(ecol < a)
+        if op == "filter_bind":
+            return st.filter(T.y == sa.bindparam("qb%d" % (a % 3), a))
+        if op == "params":
+            return st.params(**{"qb%d" % (a % 3): a})
+        if op == "filter_by":
+            return st.filter_by(x=a)
+        if op == "order_by":
+            return st.order_by(ecol)
+        if op == "reset_order":
+            return st.order_by(None)
+        if op == "limit":
+            return st.limit(a % 7)
+        if op == "offset":
+            return st.offset(a % 5)
+        if op == "slice":
+            return st.slice(a % 3, a % 3 + 4)
+        if op == "distinct":
+            return st.distinct()
+        if op == "add_entity":
+            return st.add_entity(U)
+        if op == "add_entity_alias":
+            return st.add_entity(orm.aliased(U, name="ua%d" % (a % 2)))
+        if op == "add_columns":
+            return st.add_columns((T.x + a).label("qc%d" % (a % 3)))
+        if op == "with_entities":
+            return st.with_entities(T.id, ecol)
+        if op == "join_rel":
+            return st.join(T.us)
+        if op == "outerjoin_rel":
+            return st.outerjoin(T.us)
+        if op == "group_by":
+            return st.group_by(ecol)
+        if op == "having":
+            return st.having(sa.func.count(T.id) > a % 5)
+        if op == "options_selectin":
+            return st.options(orm.selectinload(T.us))
+        if op == "execution_options":
+            return st.execution_options(**{"k%d" % (a % 2): a})
+        if op == "select_from":
+            return st.select_from(T)
+        if op == "enable_assertions":
+            return st.enable_assertions(bool(a % 2))
+        raise ValueError(op)
     if kind in ("orm", "orm_cols"):
         ecol = [T.x, T.y, T.id][a % 3]
         if op == "where":
@@ -264,9 +396,17 @@ def apply_op(env, kind, st, op, a):
     raise ValueError(op)
 
 
-def snapshot(env, st):
+def snapshot(env, st, observers=False):
     """canonical record of what the statement compiles to on every dialect"""
     out = {}
+    if hasattr(st, "session") and hasattr(st, "statement"):
+        st = st.statement  # legacy Query
+    if observers and type(st).__name__ == "CompoundSelect":
+        try:
+            sq = env.sa.select(st.subquery("sq_obs"))
+            out["__as_subquery__"] = str(sq.compile(dialect=env.dialects["sqlite"]))
+        except Exception as ex:
+            out["__as_subquery__"] = ("ERR", type(ex).__name__)
     for dn, d in env.dialects.items():
         try:
             c = st.compile(dialect=d)
@@ -290,7 +430,8 @@ def run_tree(ctx, env, spec, record=True):
 
     kind = spec["kind"]
     stmts = [base_stmt(env, kind)]
-    births = [snapshot(env, stmts[0])]
+    isq = kind.startswith("query")
+    births = [snapshot(env, stmts[0], True)]
     applied = []
     for parent, op, a in spec["nodes"]:
         try:
@@ -313,7 +454,7 @@ def run_tree(ctx, env, spec, record=True):
             continue
         applied.append(op)
         stmts.append(st)
-        births.append(snapshot(env, st))
+        births.append(snapshot(env, st, True))
     nviol = 0
 
     reported = set()
@@ -322,7 +463,7 @@ def run_tree(ctx, env, spec, record=True):
         nonlocal nviol
         for i, st in enumerate(stmts):
             try:
-                now = snapshot(env, getter(st))
+                now = snapshot(env, getter(st), True)
             except Exception as ex:
                 if label in ("pickle",):
                     continue
@@ -343,6 +484,10 @@ def run_tree(ctx, env, spec, record=True):
 
     check("after-descendants-built", lambda s: s)
     check("recompile", lambda s: s)
+    if isq:
+        check("cloned_traverse", lambda s: visitors.cloned_traverse(s.statement, {}, {}))
+        check("after-clone-ops", lambda s: s)
+        return nviol if not record else _rec(ctx, spec, kind, applied, nviol)
     check("copy.copy", lambda s: copy.copy(s))
     check("_clone", lambda s: s._clone())
     check("cloned_traverse", lambda s: visitors.cloned_traverse(s, {}, {}))
@@ -357,6 +502,16 @@ def run_tree(ctx, env, spec, record=True):
         for o in applied:
             if o:
                 ctx.count("op=" + o)
+    return nviol
+
+
+def _rec(ctx, spec, kind, applied, nviol):
+    ctx.case(json.dumps(spec, sort_keys=True), nontrivial=len(spec["nodes"]) >= 2)
+    ctx.count("kind=" + kind)
+    ctx.count("nodes=%d" % min(len(spec["nodes"]), 40))
+    for o in applied:
+        if o:
+            ctx.count("op=" + o)
     return nviol
 
 
@@ -377,7 +532,7 @@ def classify(spec, label, node):
 
 
 def gen_tree(rng, maxlen):
-    kind = rng.choice(["select"] * 4 + ["select_join", "compound", "insert", "update", "delete", "orm", "orm", "orm_cols"])
+    kind = rng.choice(["select"] * 4 + ["select_join", "compound", "compound_union", "compound_intersect", "compound_except", "compound_nested", "insert", "update", "delete", "orm", "orm", "orm_cols", "query", "query", "query_cols"])
     ops = ops_for(kind)
     n = rng.randint(2, maxlen)
     nodes = []
@@ -400,7 +555,7 @@ def run(ctx, deep=False):
     ctx.trusted += ["the in-place-mutation scan of the translator is syntactic (ast); harness/c03_baseline.json is the reviewed residual of the unchanged tree"]
     thorough = ctx.tier == "thorough" or deep
     env = Env()
-    n = 1200 if thorough else 110
+    n = 1200 if thorough else 200
     maxlen = 40 if thorough else 12
     for i in range(n):
         spec = gen_tree(ctx.rng, maxlen)
